@@ -615,8 +615,12 @@ pub fn execute_checked(trace: &Trace, ctx: &Arc<ExecCtx>) -> RunOutput {
                     out.violations.push(Violation {
                         property: trace.property.clone(),
                         class: "schedule-dependent-output".into(),
-                        sig: format!("{} differs from the solo run of the session", name),
-                        group: "differs from the solo run".into(),
+                        sig: if trace.world.zipped {
+                            "a result differs from the solo run of the session in the zipped deployment (sessions extract archives into the shared rules directory)".to_string()
+                        } else {
+                            format!("{} differs from the solo run of the session", name)
+                        },
+                        group: if trace.world.zipped { "differs from the solo run (zipped)".into() } else { "differs from the solo run".into() },
                         detail: format!("session {} step {}:
 interleaved: {}
 solo: {}", i, k, a.get(k).cloned().unwrap_or_default(), b.get(k).cloned().unwrap_or_default()),
